@@ -737,7 +737,7 @@ def inverse(v, what="inverse"):
     if len(nt) == 1 and len(nt[0][1].f) == 1 and nt[0][0].is_const() and A and B:
         c, n = nt[0]
         h, ix = n.f[0]
-        if len(ix) >= 2 and set(ix[-2:]) == {A[0], B[0]} and ST.head[h].sym:
+        if len(ix) >= 2 and set(ix[-2:]) == {A[0], B[0]} and ST.head[h].sym and all(x in m for x in ix) and len(set(ix)) == len(ix):
             if h not in ST.pair:
                 nh = f"Inv({h})"
                 ST.head[nh] = HeadInfo("InvAtom", sym=True)
@@ -798,7 +798,7 @@ def logdet(v, what="slogdet"):
     if len(nt) == 1 and len(nt[0][1].f) == 1 and nt[0][0].is_one() and A and B:
         c, n = nt[0]
         h, ix = n.f[0]
-        if len(ix) >= 2 and set(ix[-2:]) == {A[0], B[0]} and h in ST.lndet:
+        if len(ix) >= 2 and set(ix[-2:]) == {A[0], B[0]} and h in ST.lndet and all(x in m for x in ix) and len(set(ix)) == len(ix):
             lc, lh = ST.lndet[h]
             return Val(baxes, [(D(lc), Net([(lh, tuple(m[x] for x in ix[:-2]))]))])
     dg = _as_diagonal(nt, A, B)
